@@ -632,6 +632,10 @@ func (g *grid) cause(x elem) string {
 	switch {
 	case strings.HasPrefix(sk, "get-where") && strings.HasPrefix(fam, "name:"):
 		return "queryMeasurement (GET /api/v1/query/:measurement) checks RBAC only for the database/measurement parameters; table references inside the caller's where fragment are rewritten to read_parquet() by getTransformedSQL without any permission check"
+	case d == "cte-prefix":
+		return "maskedTokenInTablePosition arms TABLE/PIVOT/... only at a statement start, after `(` or a set operator; after the `)` that closes a WITH list (WITH x AS (...) TABLE '<path>') the statement keyword is treated as an ordinary word"
+	case strings.HasPrefix(d, "bareword:"):
+		return "sql.MaskStringLiterals loses the end of an unquoted identifier that contains quote-opener bytes ($, or a string-prefix letter) and masks the rest of the statement as one literal, hiding what follows from ValidateSQLRequest and checkQueryPermissions while DuckDB lexes the identifier whole"
 	case d == "identifier-backtick":
 		return "ValidateSQLRequest maps every backtick to a double quote before masking (backticksToDoubleQuotes), so a backtick INSIDE a quoted identifier flips the quote parity of the shared normalisation; ioDenylistNormalise then deletes the quotes and the path's /**/ reads as a comment"
 	case strings.HasPrefix(d, "identifier-") || d == "table-alias-quoted-single-quote" || d == "table-alias-quoted-line-comment" || d == "table-alias-quoted-open-paren":
@@ -697,6 +701,7 @@ func main() {
 		return
 	}
 
+	quickTier = run.Quick()
 	catalog := catalogTableFunctions()
 	g := &grid{sk: buildSkeletons(), fl: buildFillers(catalog), dc: buildDecoys(), skIdx: map[string]int{}, dcIdx: map[string]int{}}
 	g.alt = fnAlt(g.fl)
@@ -805,10 +810,16 @@ func main() {
 
 	// ---- phase 1: evaluate the whole product -----------------------------------------------------------------
 	type unit struct{ s, f int }
+	// the (skeleton, filler) pairs of the Core sub-product come first, so that a run stopped by the time cap
+	// has still covered what the quick tier covers, for every skeleton
 	var units []unit
-	for _, s := range g.skSel {
-		for _, f := range g.flSel {
-			units = append(units, unit{s, f})
+	for pass := 0; pass < 2; pass++ {
+		for _, s := range g.skSel {
+			for _, f := range g.flSel {
+				if (g.sk[s].Core && g.fl[f].Core) == (pass == 0) {
+					units = append(units, unit{s, f})
+				}
+			}
 		}
 	}
 	if s := os.Getenv("C14_LIMIT_UNITS"); s != "" { // development only: measure cost on a prefix
